@@ -385,6 +385,10 @@ enum Op {
     Fail(usize, usize),
     Refute(usize, usize, u64),
     MarkHealthy(usize, usize),
+    /// the public `tick()`
+    Tick(usize),
+    /// the public `sync_time(t)`
+    SyncTime(usize, u64),
 }
 
 impl Op {
@@ -396,6 +400,8 @@ impl Op {
             Op::Fail(r, m) => format!("fail {r} {m}"),
             Op::Refute(r, m, i) => format!("refute {r} {m} {i}"),
             Op::MarkHealthy(r, m) => format!("mark_healthy {r} {m}"),
+            Op::Tick(r) => format!("tick {r}"),
+            Op::SyncTime(r, t) => format!("sync_time {r} {t}"),
         }
     }
     fn name(&self) -> &'static str {
@@ -406,11 +412,13 @@ impl Op {
             Op::Fail(..) => "fail",
             Op::Refute(..) => "refute",
             Op::MarkHealthy(..) => "mark_healthy",
+            Op::Tick(..) => "tick",
+            Op::SyncTime(..) => "sync_time",
         }
     }
     fn replica(&self) -> usize {
         match self {
-            Op::Merge(r, _) | Op::UpdateLocal(r, ..) | Op::Suspect(r, ..) | Op::Fail(r, _) | Op::Refute(r, ..) | Op::MarkHealthy(r, _) => *r,
+            Op::Merge(r, _) | Op::UpdateLocal(r, ..) | Op::Suspect(r, ..) | Op::Fail(r, _) | Op::Refute(r, ..) | Op::MarkHealthy(r, _) | Op::Tick(r) | Op::SyncTime(r, _) => *r,
         }
     }
 }
@@ -432,6 +440,14 @@ fn apply_real(reps: &mut [LWWMembershipState], op: &Op, names: &[String]) -> Str
         Op::Fail(_, m) => reps[r].fail(&names[*m]).to_string(),
         Op::Refute(_, m, i) => reps[r].refute(&names[*m], *i).to_string(),
         Op::MarkHealthy(_, m) => reps[r].mark_healthy(&names[*m]).to_string(),
+        Op::Tick(_) => {
+            reps[r].tick();
+            "ok".to_string()
+        }
+        Op::SyncTime(_, t) => {
+            reps[r].sync_time(*t);
+            "ok".to_string()
+        }
     };
     format!("{head} | {}", view_txt(reps[r].lamport_time(), &cview(&reps[r], names)))
 }
@@ -1087,8 +1103,15 @@ fn main() {
         "merge.insert_new", "merge.superseded", "merge.tie_broken_by_health", "merge.ignored", "merge.empty_batch",
         "suspect.true", "suspect.false", "fail.true", "fail.false", "refute.true", "refute.false",
         "mark_healthy.true", "mark_healthy.false", "update_local.fresh", "update_local.raise",
+        "tick", "sync_time.ahead_of_clock", "sync_time.behind_clock",
         "mgr.sync", "mgr.sync.rejected_delta", "mgr.suspect.remote", "mgr.suspect.self", "mgr.suspect.already_pending",
         "mgr.alive.refuted", "mgr.alive.ignored", "mgr.alive.rejected_delta", "mgr.add_peer",
+        "cluster.add_peer", "cluster.round", "cluster.round.no_targets", "cluster.round.suspicion_expired",
+        "cluster.round.several_suspicions_expired", "cluster.round.view_truncated", "cluster.round.timestamp_tie_at_the_cut",
+        "cluster.suspect_node", "cluster.suspect_node.degraded", "cluster.deliver.sync", "cluster.deliver.sync_to_its_own_sender",
+        "cluster.deliver.suspect", "cluster.deliver.suspect_about_self", "cluster.deliver.alive", "cluster.deliver.alive.refuted",
+        "cluster.ping_ack.success", "cluster.ping_ack.failure", "cluster.ping_ack.marked_healthy", "cluster.member_recorded_failed",
+        "cluster.exchange_checked",
     ]
     .iter()
     .map(|s| s.to_string())
@@ -1102,6 +1125,11 @@ fn main() {
     corpus_stream(&mut rep, &mut m, &names);
     directed_unsorted(&mut rep, &mut m, &names);
     directed_manager(&mut rep, &mut m, &names);
+    {
+        let rt = tokio::runtime::Builder::new_current_thread().build().unwrap();
+        let _guard = rt.enter();
+        cluster_directed(&mut rep, &mut m, &names, &rt);
+    }
 
     // ---------------------------------------------------------------- exhaustive streams
     {
@@ -1156,7 +1184,14 @@ fn main() {
                 let rr = r.below(nrep as u64) as usize;
                 let mm = r.below(members as u64) as usize;
                 let cur = current_inc(&reps[rr], &names[mm]);
-                let op = match r.below(12) {
+                let op = match r.below(13) {
+                    12 => {
+                        if r.chance(1, 2) {
+                            Op::Tick(rr)
+                        } else {
+                            Op::SyncTime(rr, r.below(2 * maxv + 6))
+                        }
+                    }
                     0..=2 => {
                         let n = r.below(5) as usize;
                         Op::Merge(rr, (0..n).map(|_| gen_upd(&mut r, members, maxv)).collect())
@@ -1207,6 +1242,8 @@ fn main() {
                         rep.hit(if before.0[*mm].is_none() { "update_local.fresh" } else { "update_local.raise" });
                         conflict |= before.0[*mm].is_some();
                     }
+                    Op::Tick(_) => rep.hit("tick"),
+                    Op::SyncTime(_, t) => rep.hit(if *t > before.1 { "sync_time.ahead_of_clock" } else { "sync_time.behind_clock" }),
                     _ => {
                         let res = imp.starts_with("true");
                         rep.hit(&format!("{}.{}", op.name(), res));
@@ -1392,6 +1429,15 @@ fn main() {
     // ---------------------------------------------------------------- manager streams
     manager_streams(&args, &root, &mut rep, &mut m, &names, scale);
 
+    // ---------------------------------------------------------------- cluster of real managers
+    {
+        let t0 = std::time::Instant::now();
+        let rt = tokio::runtime::Builder::new_current_thread().build().unwrap();
+        let _guard = rt.enter();
+        cluster_stream(&mut rep, &mut m, &names, &root, &rt, 500 * scale);
+        rep.note(&format!("cluster: {:.1}s", t0.elapsed().as_secs_f64()));
+    }
+
     rep.note(&format!("corr_gossip wall {:.1}s", t_start.elapsed().as_secs_f64()));
     rep.note("u64 lamport/incarnation counters modelled as Nat (no overflow within 2^64 ticks)");
     rep.note("manager stream: suspicion timers (Instant), flap tracking, signing, ping-req/ack and transport sends are not modelled; only the CRDT effects of Sync/Suspect/Alive/add_peer are compared");
@@ -1410,6 +1456,7 @@ fn emitted_real(op: &Op, imp_answer: &str, after: &CView) -> Vec<Upd> {
                 vec![]
             }
         }
+        Op::Tick(_) | Op::SyncTime(..) => vec![],
     }
 }
 
@@ -1876,6 +1923,680 @@ fn manager_streams(_args: &Args, root: &Rng, rep: &mut Report, m: &mut Model, na
         rep.case("mgr.mixed", Some(&lines.join("/")));
         if case == 0 {
             rep.sample(json!({"stream": "mgr.mixed", "history": lines[..lines.len().min(10)]}));
+        }
+    }
+}
+
+// ------------------------------------------------------------------ cluster of real managers
+
+/// a CRDT-relevant gossip message captured from a manager's transport
+#[derive(Clone, Debug, PartialEq, Eq)]
+enum GMsg {
+    Sync(usize, u64, Vec<Upd>),
+    Suspect(usize, u64),
+    Alive(usize, u64),
+}
+
+impl GMsg {
+    fn txt(&self) -> String {
+        match self {
+            GMsg::Sync(s, t, b) => format!("sync/{s}/{t}/{}", batch_txt(b)),
+            GMsg::Suspect(m, i) => format!("suspect/{m}/{i}"),
+            GMsg::Alive(m, i) => format!("alive/{m}/{i}"),
+        }
+    }
+    fn real(&self, names: &[String], reporter: usize) -> GossipMessage {
+        match self {
+            GMsg::Sync(s, t, b) => GossipMessage::Sync {
+                sender: names[*s].clone(),
+                states: b.iter().map(|u| u.real(names)).collect(),
+                sender_time: *t,
+            },
+            GMsg::Suspect(m, i) => GossipMessage::Suspect { reporter: names[reporter].clone(), suspect: names[*m].clone(), incarnation: *i },
+            GMsg::Alive(m, i) => GossipMessage::Alive { node_id: names[*m].clone(), incarnation: *i },
+        }
+    }
+}
+
+/// one step of a cluster script (replayable on fresh real managers: every delivery carries its message)
+#[derive(Clone, Debug)]
+enum COp {
+    AddPeer(usize, usize),
+    /// `gossip_round` at node r
+    Round(usize),
+    /// `suspect_node(m)` at node r
+    SuspectNode(usize, usize),
+    /// `handle_gossip(msg)` at node r — skipped on replay when no manager has sent `msg`
+    Deliver(usize, GMsg),
+    /// `handle_gossip(PingAck { target, success })` at node r
+    PingAck(usize, usize, bool),
+    /// a runs a round, b handles that Sync, b runs a round, a handles that Sync; then the
+    /// exchange oracle: a and b agree on every member other than a and b
+    Exchange(usize, usize),
+}
+
+#[derive(Clone, Copy, Debug)]
+struct CCfg {
+    n: usize,
+    /// max_states_per_message
+    k: usize,
+    /// suspicion_timeout_ms = 0 (every pending suspicion expires at the next round) or never
+    t0: bool,
+    delta: u64,
+}
+
+struct Clu<'a> {
+    names: &'a [String],
+    cfg: CCfg,
+    rt: &'a tokio::runtime::Runtime,
+    nodes: Vec<GossipMembershipManager>,
+    rx: Vec<Vec<tokio::sync::mpsc::Receiver<(String, tensor_chain::network::Message)>>>,
+    /// does node r know a peer other than itself (otherwise nothing is ever sent)
+    has_peer: Vec<bool>,
+    /// every CRDT-relevant message any manager has handed to its transport so far
+    net: Vec<GMsg>,
+    last_sync: Vec<Option<GMsg>>,
+    /// largest incarnation member m itself has put into an Alive
+    announced: Vec<u64>,
+    viol: Vec<(String, String)>,
+    nsteps: usize,
+    /// model lines + implementation answers of the primitive steps of the last `run`
+    trace: Vec<(Option<String>, String)>,
+    hits: Vec<&'static str>,
+}
+
+fn idx_of(names: &[String], id: &str) -> usize {
+    names.iter().position(|n| n == id).unwrap_or(K)
+}
+
+impl<'a> Clu<'a> {
+    fn new(cfg: CCfg, names: &'a [String], rt: &'a tokio::runtime::Runtime) -> Self {
+        let mut nodes = vec![];
+        let mut rx = vec![];
+        for r in 0..cfg.n {
+            let tr = Arc::new(MemoryTransport::new(names[r].clone()));
+            let mut rxs = vec![];
+            for p in 0..K {
+                let (tx, rcv) = tokio::sync::mpsc::channel(4096);
+                tr.connect_to(names[p].clone(), tx);
+                rxs.push(rcv);
+            }
+            let gc = GossipConfig {
+                max_incarnation_delta: cfg.delta,
+                geometric_routing: false,
+                fanout: 16,
+                indirect_ping_count: 1,
+                max_states_per_message: cfg.k,
+                suspicion_timeout_ms: if cfg.t0 { 0 } else { 1 << 40 },
+                ..GossipConfig::default()
+            };
+            nodes.push(GossipMembershipManager::new(names[r].clone(), gc, tr));
+            rx.push(rxs);
+        }
+        Clu {
+            names,
+            cfg,
+            rt,
+            nodes,
+            rx,
+            has_peer: vec![false; cfg.n],
+            net: vec![],
+            last_sync: vec![None; cfg.n],
+            announced: vec![0; K],
+            viol: vec![],
+            nsteps: 0,
+            trace: vec![],
+            hits: vec![],
+        }
+    }
+
+    fn flag(&mut self, class: &str, what: String) {
+        if !self.viol.iter().any(|(c, _)| c == class) {
+            self.viol.push((class.to_string(), what));
+        }
+    }
+
+    fn view(&self, r: usize) -> (CView, u64) {
+        (cview_of_list(&self.nodes[r].membership_view(), self.names), self.nodes[r].lamport_time())
+    }
+
+    /// let the spawned send tasks run, then collect what node r handed to its transport
+    fn drain(&mut self, r: usize) -> Vec<GMsg> {
+        self.rt.block_on(async {
+            for _ in 0..4 {
+                tokio::task::yield_now().await;
+            }
+        });
+        let mut out: Vec<GMsg> = vec![];
+        for p in 0..K {
+            while let Ok((_, msg)) = self.rx[r][p].try_recv() {
+                if let tensor_chain::network::Message::Gossip(gm) = msg {
+                    let g = match gm {
+                        GossipMessage::Sync { sender, states, sender_time } => Some(GMsg::Sync(idx_of(self.names, &sender), sender_time, to_upds(&states, self.names))),
+                        GossipMessage::Suspect { suspect, incarnation, .. } => Some(GMsg::Suspect(idx_of(self.names, &suspect), incarnation)),
+                        GossipMessage::Alive { node_id, incarnation } => Some(GMsg::Alive(idx_of(self.names, &node_id), incarnation)),
+                        _ => None,
+                    };
+                    if let Some(g) = g {
+                        if !out.contains(&g) {
+                            out.push(g);
+                        }
+                    }
+                }
+            }
+        }
+        out
+    }
+
+    /// one primitive step on the real managers + every oracle; pushes (model line, implementation answer)
+    fn prim(&mut self, op: &COp) {
+        let names = self.names;
+        let r = match op {
+            COp::AddPeer(r, _) | COp::Round(r) | COp::SuspectNode(r, _) | COp::Deliver(r, _) | COp::PingAck(r, ..) => *r,
+            COp::Exchange(..) => unreachable!(),
+        };
+        if let COp::Deliver(_, msg) = op {
+            if !self.net.contains(msg) {
+                return; // replay of a shrunk script: this message was never sent here
+            }
+        }
+        self.nsteps += 1;
+        let before = self.view(r);
+        let order: Vec<usize> = self.nodes[r].membership_view().iter().map(|s| idx_of(names, &s.node_id)).collect();
+        let opname = match op {
+            COp::AddPeer(_, p) => {
+                self.nodes[r].add_peer(names[*p].clone());
+                if *p != r {
+                    self.has_peer[r] = true;
+                }
+                "add_peer"
+            }
+            COp::Round(_) => {
+                let _ = self.rt.block_on(self.nodes[r].gossip_round());
+                "gossip_round"
+            }
+            COp::SuspectNode(_, m) => {
+                let _ = self.rt.block_on(self.nodes[r].suspect_node(&names[*m]));
+                "suspect_node"
+            }
+            COp::Deliver(_, msg) => {
+                self.nodes[r].handle_gossip(msg.real(names, (r + 1) % self.cfg.n));
+                match msg {
+                    GMsg::Sync(..) => "handle_sync",
+                    GMsg::Suspect(..) => "handle_suspect",
+                    GMsg::Alive(..) => "handle_alive",
+                }
+            }
+            COp::PingAck(_, t, ok) => {
+                self.nodes[r].handle_gossip(GossipMessage::PingAck { origin: names[(r + 1) % self.cfg.n].clone(), target: names[*t].clone(), sequence: 0, success: *ok });
+                "handle_ping_ack"
+            }
+            COp::Exchange(..) => unreachable!(),
+        };
+        let out = self.drain(r);
+        let after = self.view(r);
+        let at = format!("(step {} at node {r}: {opname})", self.nsteps);
+        let txt = |e: Option<(usize, u64, u64)>| e.map_or("-".to_string(), |e| format!("{}:{}:{}", HL[e.0], e.1, e.2));
+
+        // ---- oracles on the real managers' own outputs
+        for (c, w) in mono_classes("tensor_chain.gossip.cluster", opname, (&before.0, before.1), (&after.0, after.1)) {
+            self.flag(&c, format!("{w} {at}"));
+        }
+        for g in &out {
+            match g {
+                GMsg::Sync(s, _, b) => {
+                    if *s != r {
+                        self.flag("tensor_chain.gossip.cluster/sync_names_another_sender", format!("node {r} sent a Sync naming node {s} as sender {at}"));
+                    }
+                    for u in b {
+                        // states_for_gossip runs before expire_suspicions: the pre-round view
+                        if u.m < K && before.0[u.m] != Some((u.h, u.ts, u.inc)) {
+                            self.flag(
+                                "tensor_chain.gossip.cluster/sync_state_not_held",
+                                format!("node {r} published {} for member {} while holding {} {at}", u.txt(), u.m, txt(before.0[u.m])),
+                            );
+                        }
+                    }
+                    self.last_sync[r] = Some(g.clone());
+                }
+                GMsg::Alive(m, i) => {
+                    if *m != r {
+                        self.flag("tensor_chain.gossip.cluster/alive_for_another_member", format!("node {r} announced incarnation {i} for member {m} {at}"));
+                    } else {
+                        if *i <= self.announced[r] {
+                            self.flag("tensor_chain.gossip.cluster/announced_incarnation_not_increasing", format!("node {r} announced incarnation {i} after {} {at}", self.announced[r]));
+                        }
+                        self.announced[r] = self.announced[r].max(*i);
+                    }
+                }
+                GMsg::Suspect(..) => {}
+            }
+            if !self.net.contains(g) {
+                self.net.push(g.clone());
+            }
+        }
+        if let COp::Deliver(_, GMsg::Sync(_, _, b)) = op {
+            for u in b {
+                let d = match before.0[u.m] {
+                    Some(e) => u.inc.saturating_sub(e.2),
+                    None => u.inc,
+                };
+                if d <= self.cfg.delta && after.0[u.m].map_or(true, |e| vkey(e) < ukey(u)) {
+                    self.flag(
+                        "tensor_chain.gossip.cluster/sync_state_lost",
+                        format!("node {r} handled a Sync carrying {} (within the incarnation jump limit) and holds {} for that member afterwards {at}", u.txt(), txt(after.0[u.m])),
+                    );
+                }
+            }
+        }
+        for q in 0..self.cfg.n {
+            let v = if q == r { after.0 } else { self.view(q).0 };
+            for m in 0..K {
+                if let Some((h, _, inc)) = v[m] {
+                    if inc > self.announced[m] {
+                        let class = if h == 2 { "tensor_chain.gossip.cluster/failed_above_announced_incarnation" } else { "tensor_chain.gossip.cluster/recorded_above_announced_incarnation" };
+                        self.flag(class, format!("node {q} records member {m} as {} while member {m} has announced at most incarnation {} {at}", txt(v[m]), self.announced[m]));
+                    }
+                    if h == 2 && q == r && before.0[m].map_or(true, |b| b.0 != 2) {
+                        self.hits.push("cluster.member_recorded_failed");
+                    }
+                }
+            }
+        }
+
+        // ---- the model line of this step
+        let out_txt = if out.is_empty() { "-".to_string() } else { out.iter().map(GMsg::txt).collect::<Vec<_>>().join("+") };
+        let state_txt = format!("rej={} | {}", self.nodes[r].incarnation_rejected_count(), view_txt(after.1, &after.0));
+        let nats = |v: &[usize]| if v.is_empty() { "-".to_string() } else { v.iter().map(|x| x.to_string()).collect::<Vec<_>>().join(",") };
+        let (line, imp) = match op {
+            COp::AddPeer(_, p) => (Some(format!("ev_add_peer {r} {p}")), format!("{out_txt} | {state_txt}")),
+            COp::Round(_) => {
+                if !self.has_peer[r] {
+                    self.hits.push("cluster.round.no_targets");
+                    if before != after || !out.is_empty() {
+                        self.flag("tensor_chain.gossip.cluster/idle_round_changed_state", format!("a gossip round without targets changed the view or sent something {at}"));
+                    }
+                    (None, String::new())
+                } else {
+                    // the suspicions that expired, in the order they were failed: read off the fresh stamps
+                    let mut exp: Vec<(u64, usize)> = (0..K)
+                        .filter_map(|m| match (before.0[m], after.0[m]) {
+                            (Some(b), Some(a)) if a != b && a.0 == 2 => Some((a.1, m)),
+                            _ => None,
+                        })
+                        .collect();
+                    exp.sort();
+                    if !exp.is_empty() {
+                        self.hits.push("cluster.round.suspicion_expired");
+                    }
+                    if exp.len() > 1 {
+                        self.hits.push("cluster.round.several_suspicions_expired");
+                    }
+                    if let Some(GMsg::Sync(_, _, b)) = out.first() {
+                        if b.len() < order.len() {
+                            self.hits.push("cluster.round.view_truncated");
+                            let cut = b.last().map_or(0, |u| u.ts);
+                            if (0..K).any(|m| before.0[m].is_some_and(|e| e.1 == cut && !b.iter().any(|u| u.m == m))) {
+                                self.hits.push("cluster.round.timestamp_tie_at_the_cut");
+                            }
+                        }
+                    }
+                    let exp: Vec<usize> = exp.into_iter().map(|x| x.1).collect();
+                    (
+                        Some(format!("ev_round {r} {} {} {} {}", self.cfg.k, u8::from(self.cfg.t0), nats(&order), nats(&exp))),
+                        format!("{out_txt} | {state_txt}"),
+                    )
+                }
+            }
+            COp::SuspectNode(_, m) => {
+                // without a known peer nothing is sent: only the state is compared
+                let o = if self.has_peer[r] { out_txt.clone() } else { "*".to_string() };
+                (Some(format!("ev_suspect_node {r} {m}")), format!("{o} | {state_txt}"))
+            }
+            COp::Deliver(_, msg) => {
+                let l = match msg {
+                    GMsg::Sync(s, t, b) => format!("ev_sync {r} {s} {t} {}", batch_txt(b)),
+                    GMsg::Suspect(m, i) => format!("ev_suspect {r} {m} {i}"),
+                    GMsg::Alive(m, i) => format!("ev_alive {r} {m} {i}"),
+                };
+                let o = if self.has_peer[r] || !matches!(msg, GMsg::Suspect(m, _) if *m == r) { out_txt.clone() } else { "*".to_string() };
+                (Some(l), format!("{o} | {state_txt}"))
+            }
+            COp::PingAck(_, t, ok) => (Some(format!("ev_ping_ack {r} {t} {}", u8::from(*ok))), format!("{out_txt} | {state_txt}")),
+            COp::Exchange(..) => unreachable!(),
+        };
+        self.hits.push(match op {
+            COp::AddPeer(..) => "cluster.add_peer",
+            COp::Round(_) => "cluster.round",
+            COp::SuspectNode(..) => "cluster.suspect_node",
+            COp::Deliver(_, GMsg::Sync(s, ..)) if *s == r => "cluster.deliver.sync_to_its_own_sender",
+            COp::Deliver(_, GMsg::Sync(..)) => "cluster.deliver.sync",
+            COp::Deliver(_, GMsg::Suspect(m, _)) if *m == r => "cluster.deliver.suspect_about_self",
+            COp::Deliver(_, GMsg::Suspect(..)) => "cluster.deliver.suspect",
+            COp::Deliver(_, GMsg::Alive(..)) => "cluster.deliver.alive",
+            COp::PingAck(_, _, true) => "cluster.ping_ack.success",
+            COp::PingAck(..) => "cluster.ping_ack.failure",
+            COp::Exchange(..) => unreachable!(),
+        });
+        if before.0 != after.0 {
+            match op {
+                COp::PingAck(..) => self.hits.push("cluster.ping_ack.marked_healthy"),
+                COp::SuspectNode(..) => self.hits.push("cluster.suspect_node.degraded"),
+                COp::Deliver(_, GMsg::Alive(..)) => self.hits.push("cluster.deliver.alive.refuted"),
+                _ => {}
+            }
+        }
+        self.trace.push((line, imp));
+    }
+
+    fn step(&mut self, op: &COp) {
+        match op {
+            COp::Exchange(a, b) => {
+                let (a, b) = (*a, *b);
+                if a == b || !self.has_peer[a] || !self.has_peer[b] {
+                    return;
+                }
+                let rej0 = self.nodes[a].incarnation_rejected_count() + self.nodes[b].incarnation_rejected_count();
+                let mut quiet = true; // no suspicion expired inside the exchange
+                let va = self.view(a).0;
+                self.prim(&COp::Round(a));
+                quiet &= va == self.view(a).0;
+                let Some(sa) = self.last_sync[a].clone() else { return };
+                self.prim(&COp::Deliver(b, sa));
+                let vb = self.view(b).0;
+                self.prim(&COp::Round(b));
+                quiet &= vb == self.view(b).0;
+                let Some(sb) = self.last_sync[b].clone() else { return };
+                self.prim(&COp::Deliver(a, sb));
+                let rej1 = self.nodes[a].incarnation_rejected_count() + self.nodes[b].incarnation_rejected_count();
+                if quiet && rej0 == rej1 && self.cfg.k >= K {
+                    let (mut x, mut y) = (self.view(a).0, self.view(b).0);
+                    x[a] = None;
+                    x[b] = None;
+                    y[a] = None;
+                    y[b] = None;
+                    self.hits.push("cluster.exchange_checked");
+                    if let Some((m, _)) = diff_kind(&x, &y) {
+                        self.flag(
+                            "tensor_chain.gossip.cluster/exchange_did_not_converge",
+                            format!("nodes {a} and {b} exchanged their full views through gossip_round / handle_sync and still differ on member {m}: {} vs {} (step {})", regs_txt(&x), regs_txt(&y), self.nsteps),
+                        );
+                    }
+                }
+            }
+            o => self.prim(o),
+        }
+    }
+}
+
+fn cop_txt(op: &COp) -> String {
+    match op {
+        COp::AddPeer(r, p) => format!("add_peer {r} {p}"),
+        COp::Round(r) => format!("gossip_round {r}"),
+        COp::SuspectNode(r, m) => format!("suspect_node {r} {m}"),
+        COp::Deliver(r, g) => format!("handle_gossip {r} {}", g.txt()),
+        COp::PingAck(r, t, ok) => format!("ping_ack {r} {t} {ok}"),
+        COp::Exchange(a, b) => format!("exchange {a} {b}"),
+    }
+}
+
+fn cluster_fails(ops: &[COp], cfg: CCfg, names: &[String], rt: &tokio::runtime::Runtime, class: &str) -> bool {
+    let mut c = Clu::new(cfg, names, rt);
+    for op in ops {
+        c.step(op);
+    }
+    c.viol.iter().any(|(k, _)| k == class)
+}
+
+/// replay a finished script on fresh managers, shrink it for every oracle class it raised, report
+fn cluster_report(rep: &mut Report, stream: &str, case: &str, ops: &[COp], cfg: CCfg, names: &[String], rt: &tokio::runtime::Runtime, viol: &[(String, String)]) {
+    for (class, what0) in viol {
+        if rep.violations.iter().filter(|v| v["class"] == *class).count() >= 4 {
+            continue;
+        }
+        // map iteration order differs from run to run: a class that does not reproduce is reported unshrunk
+        let cur = if cluster_fails(ops, cfg, names, rt, class) {
+            shrink_list(ops, &mut |cand: &[COp]| cluster_fails(cand, cfg, names, rt, class))
+        } else {
+            ops.to_vec()
+        };
+        let mut c = Clu::new(cfg, names, rt);
+        for op in &cur {
+            c.step(op);
+        }
+        let what = c.viol.iter().find(|(k, _)| k == class).map(|(_, w)| w.clone()).unwrap_or_else(|| what0.clone());
+        let views: Vec<String> = (0..cfg.n).map(|r| { let v = c.view(r); view_txt(v.1, &v.0) }).collect();
+        rep.violation_capped(
+            class,
+            &what,
+            json!({"stream": stream, "case": case, "nodes": cfg.n, "max_states_per_message": cfg.k, "suspicion_timeout_zero": cfg.t0,
+                   "max_incarnation_delta": cfg.delta, "script": cur.iter().map(cop_txt).collect::<Vec<_>>(), "final_views": views,
+                   "steps_before_shrinking": ops.len()}),
+        );
+    }
+}
+
+/// drive one script: real managers + oracles to the end, the model until the first disagreement
+fn cluster_run(rep: &mut Report, m: &mut Model, stream: &str, case: &str, cfg: CCfg, names: &[String], rt: &tokio::runtime::Runtime, gen: &mut dyn FnMut(&Clu, usize) -> Option<COp>) -> Vec<COp> {
+    let mut c = Clu::new(cfg, names, rt);
+    for r in 0..cfg.n {
+        m.ask(&format!("mgr_new {r} {r} {}", cfg.delta));
+    }
+    let mut ops: Vec<COp> = vec![];
+    let mut hist: Vec<String> = vec![];
+    let mut live = true;
+    let mut i = 0;
+    while let Some(op) = gen(&c, i) {
+        i += 1;
+        c.trace.clear();
+        c.step(&op);
+        hist.push(cop_txt(&op));
+        for (line, imp) in std::mem::take(&mut c.trace) {
+            let Some(line) = line else { continue };
+            if live {
+                let ans = strip_ev(&m.ask(&line), imp.starts_with("* |"));
+                if !rep.compare(stream, || json!({"case": case, "script": hist, "model_line": line, "cfg": format!("{cfg:?}")}), &imp, &ans) {
+                    live = false;
+                    rep.hit("cluster.real_only_after_divergence");
+                }
+            }
+        }
+        for h in std::mem::take(&mut c.hits) {
+            rep.hit(h);
+        }
+        ops.push(op);
+    }
+    let viol = c.viol.clone();
+    cluster_report(rep, stream, case, &ops, cfg, names, rt, &viol);
+    rep.case(stream, Some(&format!("{case}|{cfg:?}|{}", hist.join("/"))));
+    ops
+}
+
+/// `<out> | rej=R own=O sus=S | <view>`  ->  `<out> | rej=R | <view>` (`*` for an out that cannot be observed)
+fn strip_ev(ans: &str, hide_out: bool) -> String {
+    let p: Vec<&str> = ans.splitn(3, " | ").collect();
+    if p.len() != 3 {
+        return ans.to_string();
+    }
+    let rej = p[1].split(' ').next().unwrap_or("");
+    format!("{} | {rej} | {}", if hide_out { "*" } else { p[0] }, p[2])
+}
+
+fn cluster_directed(rep: &mut Report, m: &mut Model, names: &[String], rt: &tokio::runtime::Runtime) {
+    let stream = "cluster.directed";
+    let sy = |s: usize, t: u64, b: &[Upd]| GMsg::Sync(s, t, b.to_vec());
+    let full = |n: usize| -> Vec<COp> {
+        let mut v = vec![];
+        for r in 0..n {
+            for p in 0..n {
+                if p != r {
+                    v.push(COp::AddPeer(r, p));
+                }
+            }
+        }
+        v
+    };
+    let mut cases: Vec<(&str, CCfg, Vec<COp>)> = vec![];
+    // the run of the Lean witness `self_view_lags_announced_witness`
+    cases.push((
+        "self_view_lags_announced",
+        CCfg { n: 2, k: 20, t0: true, delta: 100 },
+        vec![
+            COp::AddPeer(1, 0),
+            COp::AddPeer(0, 1),
+            COp::Round(1),
+            COp::Deliver(0, sy(1, 1, &[up(1, 'H', 1, 0)])),
+            COp::SuspectNode(0, 1),
+            COp::Deliver(1, GMsg::Suspect(1, 0)),
+            COp::Deliver(0, GMsg::Alive(1, 1)),
+            COp::SuspectNode(0, 1),
+            COp::Round(0),
+        ],
+    ));
+    // a refuted suspicion must not be failed by the next expiring round; a ping ack clears one too
+    {
+        let mut ops = full(3);
+        ops.extend([
+            COp::Exchange(1, 0),
+            COp::Exchange(2, 0),
+            COp::SuspectNode(0, 1),
+            COp::SuspectNode(0, 2),
+            COp::Deliver(1, GMsg::Suspect(1, 0)),
+            COp::Deliver(0, GMsg::Alive(1, 1)),
+            COp::PingAck(0, 2, false),
+            COp::PingAck(0, 2, true),
+            COp::PingAck(0, 4, true),
+            COp::Round(0),
+            COp::Exchange(0, 1),
+        ]);
+        cases.push(("refuted_or_acked_suspicion_is_not_failed", CCfg { n: 3, k: 20, t0: true, delta: 100 }, ops));
+    }
+    // ghost member 3: suspected by two nodes, expires at both, the Failed verdict travels, an old
+    // Sync that still says Unknown is re-delivered afterwards (to every node, the sender included)
+    {
+        let mut ops = full(3);
+        ops.extend([COp::AddPeer(0, 3), COp::AddPeer(1, 3), COp::Round(0), COp::Round(1)]);
+        ops.extend([COp::SuspectNode(0, 3), COp::SuspectNode(1, 3), COp::SuspectNode(0, 2), COp::Round(0), COp::Round(1), COp::Exchange(0, 2), COp::Exchange(1, 2)]);
+        cases.push(("ghost_member_fails_everywhere", CCfg { n: 3, k: 20, t0: true, delta: 100 }, ops));
+    }
+    // truncated views: 1 and 2 states per message, timestamp ties at the cut
+    for k in [1usize, 2] {
+        let mut ops = full(4);
+        ops.extend([COp::AddPeer(0, 4), COp::Round(0), COp::Round(1), COp::Round(2), COp::Round(3)]);
+        ops.extend([COp::SuspectNode(2, 0), COp::SuspectNode(2, 1), COp::Round(2), COp::SuspectNode(3, 4), COp::Round(3), COp::Round(0), COp::Round(1)]);
+        cases.push((if k == 1 { "one_state_per_message" } else { "two_states_per_message" }, CCfg { n: 4, k, t0: false, delta: 100 }, ops));
+    }
+    // incarnation jump limit 1: a node suspected three times in a row announces 3; a node that
+    // missed the first two Alives refuses the third (delta 3 > 1) and the Sync states above the jump
+    {
+        let mut ops = full(3);
+        ops.extend([COp::Exchange(0, 1), COp::Exchange(0, 2)]);
+        for _ in 0..3 {
+            ops.push(COp::Deliver(0, GMsg::Suspect(0, 0)));
+        }
+        ops.extend([
+            COp::Deliver(1, GMsg::Alive(0, 1)),
+            COp::Deliver(1, GMsg::Alive(0, 2)),
+            COp::Deliver(1, GMsg::Alive(0, 3)),
+            COp::Deliver(2, GMsg::Alive(0, 3)),
+            COp::Exchange(1, 2),
+            COp::Deliver(2, GMsg::Alive(0, 1)),
+            COp::Exchange(1, 2),
+            COp::Exchange(1, 2),
+        ]);
+        cases.push(("incarnation_jump_limit", CCfg { n: 3, k: 20, t0: false, delta: 1 }, ops));
+    }
+    for (name, cfg, ops) in cases {
+        let mut it = ops.clone().into_iter();
+        // deliveries of a directed script name the message they expect; a `Deliver` of a Sync is
+        // replaced by the sender's actual last Sync when the expected one was not sent
+        let done = cluster_run(rep, m, stream, name, cfg, names, rt, &mut |c: &Clu, _| {
+            let op = it.next()?;
+            Some(match op {
+                COp::Deliver(r, GMsg::Sync(s, t, b)) if !c.net.contains(&GMsg::Sync(s, t, b.clone())) => match c.last_sync.get(s).cloned().flatten() {
+                    Some(g) => COp::Deliver(r, g),
+                    None => COp::Deliver(r, GMsg::Sync(s, t, b)),
+                },
+                o => o,
+            })
+        });
+        rep.hit("cluster.directed_scripts");
+        if name == "self_view_lags_announced" {
+            // replay on fresh managers and look at the two views
+            let mut c = Clu::new(cfg, names, rt);
+            for op in &done {
+                c.step(op);
+            }
+            let (v0, v1) = (c.view(0).0, c.view(1).0);
+            if let (Some((2, _, i0)), Some((_, _, i1))) = (v0[1], v1[1]) {
+                if i0 > i1 {
+                    rep.observe(json!({
+                        "what": "GossipMembershipManager::handle_suspect on the local node bumps only the `incarnation` counter and broadcasts Alive; the node's own register in its own view keeps the old incarnation. specs/tla/Membership.tla (RefuteSuspicion, NoFalsePositivesSafety) compares a Failed entry with the member's SELF-VIEW incarnation: that form does not hold of the code (Lean: self_view_lags_announced_witness); the property's form — never failed above an incarnation the member ANNOUNCED — does (cluster_failed_inc_le_announced)",
+                        "script": done.iter().map(cop_txt).collect::<Vec<_>>(),
+                        "node_0_records_member_1": format!("F:{}", i0),
+                        "node_1_self_view_incarnation": i1,
+                        "member_1_announced": c.announced[1],
+                        "class_if_counted": "tensor_chain.gossip.handle_suspect/self_view_behind_announced_incarnation"
+                    }));
+                }
+            }
+        }
+    }
+}
+
+fn cluster_stream(rep: &mut Report, m: &mut Model, names: &[String], root: &Rng, rt: &tokio::runtime::Runtime, cases: u64) {
+    let stream = "cluster";
+    let mut r = root.fork("cluster");
+    for case in 0..cases {
+        let n = 2 + r.below(3) as usize;
+        let ghost = n; // a member without a manager: never answers, never refutes
+        let cfg = CCfg {
+            n,
+            k: *r.pick(&[1usize, 2, 3, 20, 20, 20]),
+            t0: r.chance(1, 2),
+            delta: if r.chance(1, 4) { 1 + r.below(2) } else { 100 },
+        };
+        let mut setup: Vec<COp> = vec![];
+        for a in 0..n {
+            for b in 0..=n {
+                if a != b && (b < n || r.chance(1, 2)) && !r.chance(1, 10) {
+                    setup.push(COp::AddPeer(a, b));
+                }
+            }
+        }
+        r.shuffle(&mut setup);
+        let nops = setup.len() + 25 + r.below(40) as usize;
+        let mut rr = r.fork(&format!("case{case}"));
+        let ops = cluster_run(rep, m, stream, &format!("seeded case {case}"), cfg, names, rt, &mut |c: &Clu, i: usize| {
+            if i >= nops {
+                return None;
+            }
+            if i < setup.len() {
+                return Some(setup[i].clone());
+            }
+            let a = rr.below(n as u64) as usize;
+            let members = n + 1;
+            Some(match rr.below(20) {
+                0..=4 => COp::Round(a),
+                5..=10 if !c.net.is_empty() => {
+                    // mostly a recent message, sometimes an old one (re-delivery), to any node
+                    let i = if rr.chance(2, 3) { c.net.len() - 1 - rr.below(c.net.len().min(4) as u64) as usize } else { rr.below(c.net.len() as u64) as usize };
+                    let msg = c.net[i].clone();
+                    // a Suspect goes to its subject half of the time (that is what makes it announce)
+                    let to = match &msg {
+                        GMsg::Suspect(mm, _) if *mm < n && rr.chance(1, 2) => *mm,
+                        _ => a,
+                    };
+                    COp::Deliver(to, msg)
+                }
+                11..=13 => COp::SuspectNode(a, if rr.chance(1, 4) { ghost } else { rr.below(members as u64) as usize }),
+                14 | 15 => COp::PingAck(a, rr.below(members as u64) as usize, rr.chance(3, 4)),
+                16 => COp::AddPeer(a, rr.below(members as u64) as usize),
+                _ => COp::Exchange(a, (a + 1 + rr.below(n as u64 - 1) as usize) % n),
+            })
+        });
+        if case == 0 {
+            rep.sample(json!({"stream": stream, "cfg": format!("{cfg:?}"), "script": ops.iter().take(16).map(cop_txt).collect::<Vec<_>>()}));
         }
     }
 }
